@@ -226,6 +226,10 @@ static bool gen_c07(uint64_t seed, const std::string &tier, uint64_t i, Plan &p)
     std::string all = sess + tail; size_t cut = (size_t)r.below(all.size());
     p.ops.push(send_op(all.substr(0, cut))); p.ops.push(Json::obj().set("op", "sleep").set("s", (long long)(r.chance(0.5) ? timeout - 5 : timeout + 5))); p.ops.push(send_op(all.substr(cut))); p.label = "stall at byte " + std::to_string(cut);
   }
+  // the daemon itself cannot start the queue program (no process slot, no descriptors): 451 in answer to DATA, nothing taken as data, nothing queued
+  if (mode == 0 && r.chance(0.25)) { Fault f; f.actor = "qmail-smtpd"; f.kind = "error"; f.err = r.pick(std::vector<int>{EAGAIN, ENOMEM, EMFILE, ENFILE}); int at = 1;
+    if (r.chance(0.5)) { f.call = C_FORK; at = (int)r.range(1, 2); f.nth = at; } else { f.call = C_PIPE; f.nth = (int)r.range(1, 2); }
+    p.faults.push_back(f); p.knobs.set("qq_open_fails_at", at); p.label += ", queue program cannot be started"; return true; }
   // faults inside the real qmail-queue behind the daemon give the real 51/53/54/6x codes
   if (mode == 0 && r.chance(0.3)) { Fault f; f.actor = "qmail-queue"; f.call = r.pick(std::vector<CallId>{C_WRITE, C_FSYNC, C_LINK, C_OPEN, C_READ, C_MALLOC}); f.nth = (int)r.range(1, 6); f.kind = f.call == C_MALLOC ? "null" : "error"; f.err = r.pick(std::vector<int>{EIO, ENOSPC}); if (r.chance(0.3)) { f.call = C_ANY; f.nth = (int)r.range(1, 30); f.kind = "kill"; } /* the queue program is killed (OOM killer, operator): a death by signal is never success */ p.faults.push_back(f); p.knobs.set("real_qq_fault", true); p.label += " +queue fault"; }
   return true;
